@@ -10,6 +10,7 @@ import (
 	"github.com/orda-io/orda/client/pkg/operations"
 	"github.com/orda-io/orda/client/pkg/utils"
 	"github.com/wI2L/jsondiff"
+	"reflect"
 	"strconv"
 	"strings"
 )
@@ -269,6 +270,9 @@ func (its *document) PutToObject(key string, value interface{}) (Document, error
 	if err := its.assertLocalOp("PutToObject", TypeJSONObject, false); err != nil {
 		return nil, err
 	}
+	if hasNull(reflect.ValueOf(value)) {
+		return nil, errors.DatatypeIllegalParameters.New(its.L(), "null value is not allowed")
+	}
 	op := operations.NewDocPutInObjOperation(its.snapshot().getCreateTime(), key, value)
 	removed, err := its.SentenceInTx(its.TxCtx, op, true)
 	if err != nil {
@@ -337,6 +341,9 @@ func (its *document) InsertToArray(pos int, values ...interface{}) (Document, er
 	if err := arr.validateInsertPosition(pos); err != nil {
 		return its, err
 	}
+	if hasNull(reflect.ValueOf(values)) {
+		return its, errors.DatatypeIllegalParameters.New(its.L(), "null value is not allowed")
+	}
 	op := operations.NewDocInsertToArrayOperation(its.snapshot().getCreateTime(), pos, values)
 	if _, err := its.SentenceInTx(its.TxCtx, op, true); err != nil {
 		return its, err
@@ -382,12 +389,38 @@ func (its *document) UpdateManyInArray(pos int, values ...interface{}) ([]Docume
 	if err := arr.validateGetRange(pos, len(values)); err != nil {
 		return nil, err
 	}
+	if hasNull(reflect.ValueOf(values)) {
+		return nil, errors.DatatypeIllegalParameters.New(its.L(), "null value is not allowed")
+	}
 	op := operations.NewDocUpdateInArrayOperation(its.snapshot().getCreateTime(), pos, values)
 	oldOnes, err := its.SentenceInTx(its.TxCtx, op, true)
 	if err != nil {
 		return nil, err
 	}
 	return its.toDocuments(oldOnes.([]jsonType)), nil
+}
+
+// hasNull tells whether a value is, or holds at any depth, a null: the tree of a Document has no node for it
+func hasNull(rv reflect.Value) bool {
+	switch rv.Kind() {
+	case reflect.Invalid:
+		return true
+	case reflect.Ptr, reflect.Interface:
+		return rv.IsNil() || hasNull(rv.Elem())
+	case reflect.Map:
+		for _, k := range rv.MapKeys() {
+			if hasNull(rv.MapIndex(k)) {
+				return true
+			}
+		}
+	case reflect.Slice, reflect.Array:
+		for i := 0; i < rv.Len(); i++ {
+			if hasNull(rv.Index(i)) {
+				return true
+			}
+		}
+	}
+	return false
 }
 
 func (its *document) GetTypeOfJSON() TypeOfJSON {
